@@ -101,7 +101,8 @@ def _typed(v: Any) -> Any:
 
 
 def diff(a: dict[str, Any], b: dict[str, Any], relation_order: bool = False,
-         ctc_names: bool = True, ctc_compare: Any = None) -> list[tuple[str, str]]:
+         ctc_names: bool = True, ctc_compare: Any = None,
+         ctc_node_compare: Any = None) -> list[tuple[str, str]]:
     """Differences (category, text) between the model written (a) and the model read back (b)."""
     out: list[tuple[str, str]] = []
     if a["root"] != b["root"]:
@@ -140,7 +141,9 @@ def diff(a: dict[str, Any], b: dict[str, Any], relation_order: bool = False,
     for (n1, t1, x1), (n2, t2, x2) in zip(ca, cb):
         if ctc_names and n1 != n2:
             out.append(("constraint-name", f"constraint name {n1!r} -> {n2!r}"))
-        if ctc_compare is None:
+        if ctc_node_compare is not None:
+            same = ctc_node_compare(x1, x2)
+        elif ctc_compare is None:
             same = t1 == t2
         elif ctc_compare == "semantic":
             same = semantically_equal(x1, x2)
@@ -246,3 +249,22 @@ def semantically_equal(a: Any, b: Any) -> bool:
         return truth_table(a, names) == truth_table(b, names)
     except (KeyError, TypeError, AttributeError):
         return False
+
+
+def logical_only(n: Any) -> bool:
+    from .logic import LOGICAL
+    if n is None:
+        return True
+    if not isinstance(n, AObj):
+        return False
+    op = opname(n)
+    if op is None:
+        return isinstance(n._f.get("data"), str) and not str(n._f.get("data")).startswith("'")
+    return op in LOGICAL and logical_only(n._f.get("left")) and logical_only(n._f.get("right"))
+
+
+def equivalent_or_identical(a: Any, b: Any) -> bool:
+    """Logical constraints: truth-table equivalence; others: same tree up to REQUIRES=IMPLIES."""
+    if logical_only(a) and logical_only(b):
+        return semantically_equal(a, b)
+    return tree_str(a).replace("REQUIRES", "IMPLIES") == tree_str(b).replace("REQUIRES", "IMPLIES")
